@@ -1,6 +1,7 @@
 package props
 
 import (
+	"encoding/json"
 	"fmt"
 
 	"verif/internal/gen"
@@ -17,7 +18,7 @@ func init() {
 			"Non-trivial: a compound whose operands are not both constants true/false; distinct by (expression, document, mode, options)",
 		Run:    runC11,
 		Replay: replayC11,
-		MinExercised: map[string]int64{"table.and": 300, "table.or": 300, "table.not": 50, "isunknown": 50, "law.and": 3000, "law.or": 3000, "law.dneg": 1000, "law.demorgan": 1000, "exists": 1000, "match": 1000},
+		MinExercised: map[string]int64{"table.and": 300, "table.or": 300, "table.not": 50, "isunknown": 50, "law.and": 3000, "law.or": 3000, "law.dneg": 1000, "law.demorgan": 1000, "exists": 1000, "match": 1000, "law.commute.filter": 1000},
 		Assumptions: []string{
 			"an operand that raises a non-suppressible error and is evaluated must make the whole expression fail with that error; on the right of a left operand that already decides the result it may be short-circuited or reported",
 			"lax exists(e) on a failing e: true iff an item precedes the failure, else unknown (false tolerated: the statement says unknown arises only when e fails, not whenever it does)",
@@ -331,6 +332,59 @@ func runC11(c *h.Ctx) {
 		if i == 0 {
 			c.Sample("law", map[string]any{"p": pt, "q": qt, "doc": e.doc, "p-value": tvName(a), "q-value": tvName(b)})
 		}
+		// commutativity inside a filter, with conditions that use @ (nested filters,
+		// errors swallowed by "is unknown"): the kept items must not depend on operand order
+		if i%3 == 0 {
+			fp := g.Pred(2, true, false)
+			fq := g.Pred(1, true, false)
+			if r.IntN(3) == 0 {
+				// a nested filter whose condition raises a non-suppressible error, under is unknown
+				inner := &gen.N{K: gen.KBin, S: "==", A: &gen.N{K: gen.KCurrent}, B: &gen.N{K: gen.KVar, S: "missing"}}
+				fp = &gen.N{K: gen.KUn, S: "isunknown", A: &gen.N{K: gen.KUn, S: "exists", A: &gen.N{K: gen.KCurrent, Next: &gen.N{K: gen.KKey, S: g.C.Keys[r.IntN(len(g.C.Keys))], Next: &gen.N{K: gen.KFilter, A: inner}}}}}
+			}
+			checkFilterCommute(e, fp, fq)
+		}
+	}
+}
+
+// checkFilterCommute: $[*] ? (p op q) and $[*] ? (q op p) keep the same items
+// (when neither run fails with a non-suppressible error: an error operand on the
+// right of a deciding left operand may be short-circuited).
+func checkFilterCommute(e *c11Eval, p, q *gen.N) {
+	mode := ""
+	if !e.lax {
+		mode = "strict "
+	}
+	doc := h.Decode(e.doc, e.useNum)
+	if _, isArr := doc.([]any); !isArr {
+		doc = []any{doc}
+	}
+	vars := h.DecodeVars(e.vars, e.useNum)
+	pt, qt := "("+gen.SpellNode(p, nil)+")", "("+gen.SpellNode(q, nil)+")"
+	for _, op := range []string{"&&", "||"} {
+		t1 := mode + "$[*] ? (" + pt + " " + op + " " + qt + ")"
+		t2 := mode + "$[*] ? (" + qt + " " + op + " " + pt + ")"
+		p1, e1, x1 := h.ParseSafe(t1)
+		p2, e2, x2 := h.ParseSafe(t2)
+		if e1 != nil || e2 != nil || x1+x2 != "" {
+			e.c.Count("gen.unparsable", 1)
+			return
+		}
+		o1 := h.Call("query", p1, doc, h.Opts{Vars: vars})
+		o2 := h.Call("query", p2, doc, h.Opts{Vars: vars})
+		e.c.Eval(2)
+		if o1.Class != h.OK || o2.Class != h.OK {
+			e.c.Skip("law.commute.filter", "a-run-fails")
+			continue
+		}
+		db, _ := json.Marshal(doc)
+		cs := h.Case{Kind: "commute-filter", Path: t1, Doc: string(db), UseNum: e.useNum, Vars: e.vars, Extra: map[string]string{"swapped": t2}}
+		if h.CanonList(o1.Items) != h.CanonList(o2.Items) {
+			e.c.Violate("law.commute.filter", h.F("op", op, "mode", modeName(e.lax)), fmt.Sprintf("%s keeps %s but %s keeps %s", t1, o1.Summary(), t2, o2.Summary()), cs)
+		} else {
+			e.c.Held("law.commute.filter")
+		}
+		e.c.Distinct(t1, string(db))
 	}
 }
 
